@@ -60,13 +60,29 @@ TSched ==
                              ELSE LET p == PodByKey(cfg, PKey(e)) IN Chk(G_C01_Relax(p, e), "G_C01_Relax", SigRelax(p, e)))
     /\ UNCHANGED <<cfg, ntr, nplaced>>
 
+\* ---- Hydrate: the cluster cache must show every scenario node the way the scenario (the oracle's ground truth) describes
+\* it; a difference is a harness problem (Drift_* entries make the check exit 2), never a verdict
+HydrateOK(n) ==
+    \E i \in DOMAIN Ev.nodes :
+        LET h == Ev.nodes[i] IN
+        /\ h.node = n.name /\ h.alloc = n.alloc /\ h.marked = (n.marked \/ n.deleting)
+        /\ h.managed = (n.stage # "unmanaged") /\ h.initialized = (n.stage \in {"initialized", "unmanaged"})
+        /\ \A k \in DOMAIN n.labels : k \in DOMAIN h.labels /\ h.labels[k] = n.labels[k]
+        /\ {[key |-> t.key, value |-> t.value, effect |-> t.effect] : t \in Range(h.taints)}
+             = {[key |-> t.key, value |-> t.value, effect |-> t.effect] : t \in Range(n.taints)}
+THydrate ==
+    /\ Ev.e = "Hydrate"
+    /\ viol' = viol \o Chk(Ev.synced, "Drift_SCHED_Hydrate", "not-synced")
+                     \o Flat([i \in DOMAIN cfg.nodes |-> Chk(HydrateOK(cfg.nodes[i]), "Drift_SCHED_Hydrate", cfg.nodes[i].stage)])
+    /\ UNCHANGED <<cfg, ntr, nplaced>>
+
 \* events this trace spec consumes without judging (other properties' trace specs use them)
-Passive == {"Hydrate", "Api", "Read", "Prov", "Tick", "Created", "CreateErr", "Panic", "End", "Env"}
+Passive == {"Api", "Read", "Prov", "Tick", "Created", "CreateErr", "Panic", "End", "Env"}
 TPassive == Ev.e \in Passive /\ UNCHANGED <<cfg, viol, ntr, nplaced>>
 
 TraceNext ==
     \/ /\ l <= Len(Trace) /\ l' = l + 1 /\ UNCHANGED done
-       /\ (TCfg \/ TResults \/ TSched \/ TPassive)
+       /\ (TCfg \/ TResults \/ TSched \/ THydrate \/ TPassive)
     \/ /\ l = Len(Trace) + 1 /\ ~done /\ done' = TRUE
        /\ JsonSerialize(IOEnv.OUT, [viol |-> viol, consumed |-> l - 1, traces |-> ntr, placed |-> nplaced])
        /\ UNCHANGED <<l, cfg, viol, ntr, nplaced>>
